@@ -17,6 +17,7 @@ Section PtInd.
   Hypothesis HFor : forall body i a b st cs ms, P body -> P (For body i a b st cs ms).
   Hypothesis HMap : forall inner m cs, P inner -> P (Map inner m cs).
   Hypothesis HRen : forall inner r, P inner -> P (Ren inner r).
+  Hypothesis HParT : forall inner owt, P inner -> P (ParT inner owt).
 
   Fixpoint pt_ind' (p : pt) : P p :=
     match p with
@@ -33,6 +34,7 @@ Section PtInd.
     | For body i a b st cs ms => HFor body i a b st cs ms (pt_ind' body)
     | Map inner m cs => HMap inner m cs (pt_ind' inner)
     | Ren inner r => HRen inner r (pt_ind' inner)
+    | ParT inner owt => HParT inner owt (pt_ind' inner)
     end.
 End PtInd.
 
@@ -363,6 +365,12 @@ Proof.
     rewrite !map_app, H1. f_equal. apply obs_c_agree_a; auto.
   - (* Ren *)
     cbn [wf] in Hwf. cbn [obs_build wave obs_meas]. apply IHp; auto.
+  - (* ParT *)
+    apply agree_app in Hag as [Hi Ho]. cbn [wf] in Hwf.
+    destruct (IHp Hwf r1 r2 drop Hi) as [H1 [H2 H3]].
+    cbn [obs_build wave obs_meas]. split; [|split]; auto.
+    rewrite !map_app, H1, H2. f_equal. destruct (wave p r2 drop); auto. apply obs_f_agree_a.
+    eapply agree_sub; [|exact Ho]. apply kept_vars.
 Qed.
 
 Lemma atomic_coincidence : forall p, wf p -> forall r1 r2 drop, agree (pnames p) r1 r2 ->
